@@ -1,6 +1,7 @@
 package main
 
 import (
+	"strings"
 	"go/token"
 	"go/types"
 
@@ -243,4 +244,317 @@ func (c *Ctx) checkNilReflectTypes(br *BR) {
 		})
 	}
 	c.note("reflect_type_arguments_examined", n)
+}
+
+// C01-NILPATH: a pointer that the code itself tests against nil is dereferenced on a path that
+// comes from the nil side of that test (the contradiction rule: the author believed it can be nil).
+// TypeCheckField tested obsTyp == nil, returned for the empty array and for nil itself, and fell
+// out of the switch for a non-empty array without a type: obsTyp.RegisteredName was then read.
+func (c *Ctx) checkNilPaths(br *BR) {
+	n := 0
+	for _, f := range c.zygoFuncs() {
+		if !br.unprotected(f) {
+			continue
+		}
+		eachInstr(f, func(b *ssa.BasicBlock, i int, in ssa.Instruction) {
+			bo, ok := in.(*ssa.BinOp)
+			if !ok || (bo.Op != token.EQL && bo.Op != token.NEQ) || !isNilConst(bo.Y) || bo.Referrers() == nil {
+				return
+			}
+			v := bo.X
+			if _, isPtr := v.Type().Underlying().(*types.Pointer); !isPtr {
+				return
+			}
+			for _, r := range *bo.Referrers() {
+				iff, ok := r.(*ssa.If)
+				if !ok {
+					continue
+				}
+				nilSide, okSide := iff.Block().Succs[0], iff.Block().Succs[1]
+				if bo.Op == token.NEQ {
+					nilSide, okSide = okSide, nilSide
+				}
+				if len(nilSide.Preds) != 1 {
+					continue // the nil side is shared with other edges: not decidable here
+				}
+				n++
+				// dereferences of v reachable from the nil side, not passing the test again
+				reach := reachableAvoiding(nilSide, func(x *ssa.BasicBlock) bool { return x == iff.Block() })
+				var hit ssa.Instruction
+				if v.Referrers() != nil {
+					for _, u := range *v.Referrers() {
+						ui, ok := u.(ssa.Instruction)
+						if !ok || !reach[ui.Block()] || okSide.Dominates(ui.Block()) && len(okSide.Preds) == 1 {
+							continue
+						}
+						switch x := u.(type) {
+						case *ssa.FieldAddr:
+							if x.X == v {
+								hit = ui
+							}
+						case *ssa.UnOp:
+							if x.Op == token.MUL && x.X == v {
+								hit = ui
+							}
+						}
+					}
+				}
+				if hit == nil {
+					continue
+				}
+				// v may be re-assigned on the nil side (a phi merges the new value): then the use is of the phi, not of v
+				o := c.bad("C01-NILPATH", fnName(f), "dereference of "+valueOrigin(v, 0)+" on a path from its nil test", hit.Pos(),
+					"the pointer is tested against nil and then dereferenced on a path that comes from the nil side of the test, in code reachable outside the recover barrier: for the input that makes it nil this is a nil-pointer panic out of the library")
+				if o.Status == StViolation {
+					o.Path = br.unprot.pathTo(c, f)
+				}
+			}
+		})
+	}
+	c.note("nil_tests_examined", n)
+}
+
+// C01-REFLECT: reflect.Value operations that panic for inputs a script controls, outside the barrier.
+//   (a) Interface() on a Value obtained by a field access (Field, FieldByName, ...): it panics for an
+//       unexported field unless CanInterface() was asked first ((var p (* int64)) (def z p.flag));
+//   (b) a reflected wrapper value (SexpReflect) is built from reflect.ValueOf(x) where x is what a type's
+//       factory returned: a factory may return nil (a slice type whose element type has no Go sample),
+//       and the wrapper then holds the zero Value, on which Type() panics wherever the value is printed,
+//       re-bound or called. The nil case has to be refused where the wrapper is made.
+func (c *Ctx) checkReflectUse(br *BR) {
+	reflVal := func(g *ssa.Function, name string) bool {
+		if g == nil || fnPkgPath(g) != "reflect" || g.Name() != name || g.Signature.Recv() == nil {
+			return false
+		}
+		nm, ok := g.Signature.Recv().Type().(*types.Named)
+		return ok && nm.Obj().Name() == "Value"
+	}
+	nA := 0
+	for _, f := range c.zygoFuncs() {
+		if !br.unprotected(f) {
+			continue
+		}
+		eachInstr(f, func(b *ssa.BasicBlock, i int, in ssa.Instruction) {
+			call, ok := in.(*ssa.Call)
+			if !ok || !reflVal(call.Call.StaticCallee(), "Interface") || len(call.Call.Args) == 0 {
+				return
+			}
+			src, ok := call.Call.Args[0].(*ssa.Call)
+			if !ok {
+				return
+			}
+			g := src.Call.StaticCallee()
+			if g == nil || !(reflVal(g, "FieldByName") || reflVal(g, "Field") || reflVal(g, "FieldByIndex")) {
+				return
+			}
+			nA++
+			asked := false
+			eachInstr(f, func(b2 *ssa.BasicBlock, j int, x ssa.Instruction) {
+				c2, ok := x.(*ssa.Call)
+				if ok && reflVal(c2.Call.StaticCallee(), "CanInterface") && len(c2.Call.Args) > 0 && c2.Call.Args[0] == ssa.Value(src) && dominatesInstr(c2, call) {
+					asked = true
+				}
+			})
+			o := c.check(asked, "C01-REFLECT", fnName(f), "Interface() of a struct field after CanInterface()", call.Pos(),
+				"CanInterface is asked of the field value before Interface is called",
+				"Interface() is called on a reflect.Value obtained by a field access without asking CanInterface(): for an unexported field (p.flag on a value that wraps a reflect.Value) it panics, in code reachable outside the recover barrier")
+			if o.Status == StViolation {
+				o.Path = br.unprot.pathTo(c, f)
+			}
+		})
+	}
+	// (b) anywhere in the package: the wrapper is made behind the barrier, the panic happens outside it
+	valF := c.field("SexpReflect", "Val")
+	nB := 0
+	if valF != nil {
+		for _, f := range c.zygoFuncs() {
+			eachInstr(f, func(b *ssa.BasicBlock, i int, in ssa.Instruction) {
+				st, ok := in.(*ssa.Store)
+				if !ok {
+					return
+				}
+				fa, ok := st.Addr.(*ssa.FieldAddr)
+				if !ok || faField(fa) != valF {
+					return
+				}
+				vo, ok := st.Val.(*ssa.Call)
+				if !ok {
+					return
+				}
+				g := vo.Call.StaticCallee()
+				if g == nil || fnPkgPath(g) != "reflect" || g.Name() != "ValueOf" || len(vo.Call.Args) == 0 {
+					return
+				}
+				// the wrapped value: does it come from a dynamic factory call?
+				fromFactory := false
+				var fv ssa.Value
+				for _, leaf := range phiLeaves(vo.Call.Args[0]) {
+					v := leaf
+					for d := 0; d < 4; d++ {
+						switch x := v.(type) {
+						case *ssa.MakeInterface:
+							v = x.X
+							continue
+						case *ssa.TypeAssert:
+							v = x.X
+							continue
+						case *ssa.Extract:
+							if ta, ok := x.Tuple.(*ssa.TypeAssert); ok {
+								v = ta.X
+								continue
+							}
+							if dc, ok := x.Tuple.(*ssa.Call); ok && dc.Call.StaticCallee() == nil && !dc.Call.IsInvoke() {
+								fromFactory, fv = true, x
+							}
+						}
+						break
+					}
+				}
+				if !fromFactory {
+					return
+				}
+				nB++
+				guarded := guardedBy(b, func(cond ssa.Value) (bool, bool) {
+					bo, ok := cond.(*ssa.BinOp)
+					if !ok || (bo.Op != token.EQL && bo.Op != token.NEQ) || !isNilConst(bo.Y) || bo.X != fv {
+						return false, false
+					}
+					return true, bo.Op == token.NEQ
+				})
+				c.check(guarded, "C01-REFLECT", fnName(f), "reflected wrapper made from a factory result tested for nil", vo.Pos(),
+					"the factory's result is tested against nil before it is wrapped",
+					"a reflected wrapper value is built with reflect.ValueOf from what a type's factory returned, without a nil test: a factory may return nil (a slice type whose element type has no Go sample value), the wrapper then holds the zero reflect.Value and Type() panics wherever the variable is printed, re-bound, called or captured, outside the recover barrier")
+			})
+		}
+	}
+	c.note("reflect_uses_examined", nA+nB)
+}
+
+// C01-PROTO: the type registry holds, for the interpreter's internal value types, a factory that
+// returns an empty prototype (&T{}); every registered name is bound as a global, so a script can
+// write (var q hashSelector) and own such a prototype. Its pointer fields are nil. A method of T
+// that reads a pointer or interface field of its receiver and dereferences it without a nil test
+// panics on the prototype, and the methods of value types (printing, RHS, Type) run outside the
+// builtin barrier. The rule derives the prototype types from the factories and examines the
+// methods of each that are reachable outside the barrier.
+func (c *Ctx) checkPrototypes(br *BR) {
+	factoryF := c.field("RegisteredType", "Factory")
+	if factoryF == nil {
+		c.undecided("C01-PROTO", "RegisteredType", "Factory", token.NoPos, "field not found")
+		return
+	}
+	protos := map[*types.Named]token.Pos{}
+	for _, f := range c.zygoFuncs() {
+		if f.Parent() == nil {
+			continue
+		}
+		// a function literal with the factory signature that returns a fresh, untouched struct
+		sig := f.Signature
+		if sig.Params().Len() != 2 || sig.Results().Len() != 2 {
+			continue
+		}
+		for _, r := range returnsOf(f) {
+			mi, ok := r.Results[0].(*ssa.MakeInterface)
+			if !ok {
+				continue
+			}
+			al, ok := mi.X.(*ssa.Alloc)
+			if !ok || !al.Heap {
+				continue
+			}
+			nm, ok := derefNamed(al.Type())
+			if !ok {
+				continue
+			}
+			st, isStruct := nm.Underlying().(*types.Struct)
+			if !isStruct {
+				continue
+			}
+			touched := false
+			for _, ref := range *al.Referrers() {
+				if _, isFA := ref.(*ssa.FieldAddr); isFA {
+					touched = true
+				}
+			}
+			hasPtr := false
+			for i := 0; i < st.NumFields(); i++ {
+				switch st.Field(i).Type().Underlying().(type) {
+				case *types.Pointer, *types.Interface:
+					hasPtr = true
+				}
+			}
+			if !touched && hasPtr {
+				protos[nm] = al.Pos()
+			}
+		}
+	}
+	n := 0
+	for nm := range protos {
+		for _, f := range c.zygoFuncs() {
+			if f.Parent() != nil || !isMethodOf(f, nm) || len(f.Params) == 0 || !br.unprotected(f) {
+				continue
+			}
+			recv := f.Params[0]
+			eachInstr(f, func(b *ssa.BasicBlock, i int, in ssa.Instruction) {
+				ld, ok := in.(*ssa.UnOp)
+				if !ok || ld.Op != token.MUL {
+					return
+				}
+				fa, ok := ld.X.(*ssa.FieldAddr)
+				if !ok || fa.X != ssa.Value(recv) {
+					return
+				}
+				switch ld.Type().Underlying().(type) {
+				case *types.Pointer, *types.Interface:
+				default:
+					return
+				}
+				if ld.Referrers() == nil {
+					return
+				}
+				for _, u := range *ld.Referrers() {
+					deref := false
+					switch x := u.(type) {
+					case *ssa.FieldAddr:
+						deref = x.X == ssa.Value(ld)
+					case *ssa.UnOp:
+						deref = x.Op == token.MUL && x.X == ssa.Value(ld)
+					case *ssa.Call:
+						if x.Call.IsInvoke() && x.Call.Value == ssa.Value(ld) {
+							deref = true
+						}
+					case *ssa.TypeAssert:
+						deref = !x.CommaOk && x.X == ssa.Value(ld)
+					}
+					if !deref {
+						continue
+					}
+					ui := u.(ssa.Instruction)
+					n++
+					fld := faField(fa)
+					guarded := guardedBy(ui.Block(), func(cond ssa.Value) (bool, bool) {
+						bo, ok := cond.(*ssa.BinOp)
+						if !ok || (bo.Op != token.EQL && bo.Op != token.NEQ) || !isNilConst(bo.Y) {
+							return false, false
+						}
+						if _, same := loadOfField(bo.X, fld); !same {
+							return false, false
+						}
+						return true, bo.Op == token.NEQ
+					})
+					// a nil test whose nil side panics is no guard (C01-PAN reports the panic itself)
+					o := c.check(guarded, "C01-PROTO", fnName(f), "field "+fieldName(fa)+" of a registered prototype used after a nil test", ui.Pos(),
+						"the field is tested against nil before it is dereferenced",
+						"the method dereferences the receiver's field "+fieldName(fa)+" without a nil test; the type registry hands out an empty prototype of "+nm.Obj().Name()+" (every registered name is a global, so (var q "+strings.ToLower(nm.Obj().Name()[4:5])+nm.Obj().Name()[5:]+") binds one), and the method runs outside the recover barrier: a nil-pointer panic out of the library")
+					if o.Status == StViolation {
+						o.Path = br.unprot.pathTo(c, f)
+					}
+				}
+			})
+		}
+	}
+	c.note("prototype_types", len(protos))
+	if len(protos) == 0 {
+		c.undecided("C01-PROTO", "GoStructRegistry", "prototypes", token.NoPos, "no factory returning an empty prototype found (the selector types confirmed by reading)")
+	}
 }
